@@ -19,6 +19,7 @@ type streamState struct {
 	written  int
 	closed   bool
 	failSeek bool
+	lead     Value // first byte of the text layout (int64 | *Term), nil = not modelled
 }
 
 type encAbs struct{ w Value }
@@ -351,7 +352,29 @@ func init() {
 		return Iface{}
 	})
 	reg(sm+"Read", func(ex *Exec, fn *ssa.Function, args []Value, site string) Value {
+		// the only byte-level view of a JSON stream that is modelled: its first byte (leading layout or the opening brace)
+		st := ex.stream(args[0].(Ptr))
+		buf, ok := args[1].(Slice)
+		lead := st.lead
+		if lead == nil && st.tree != nil {
+			// no layout given: the compact text of an object / array starts with its bracket
+			switch st.tree.kind {
+			case jObj:
+				lead = int64('{')
+			case jArr:
+				lead = int64('[')
+			}
+		}
+		if ok && lead != nil && st.tree != nil && st.pos == 0 && buf.Len == 1 {
+			buf.Arr[buf.Off] = lead
+			st.pos = 2
+			return Tuple{int64(1), Iface{}}
+		}
 		panic(pathAbort{"unsupported: byte-level Read on an abstract stream"})
+	})
+	reg(sm+"SetLayoutFirstByte", func(ex *Exec, fn *ssa.Function, args []Value, site string) Value {
+		ex.stream(args[0].(Ptr)).lead = args[1]
+		return nil
 	})
 	reg(sm+"Seek", func(ex *Exec, fn *ssa.Function, args []Value, site string) Value {
 		st := ex.stream(args[0].(Ptr))
